@@ -2,8 +2,8 @@ SPECIFICATION Spec
 CONSTANTS
   Contents <- C2
   Sources <- Both
-  BuildDepth = 4
-  EvalDepth = 2
+  BuildDepth = 3
+  EvalDepth = 3
   Emit = TRUE
 INVARIANT EvalOnce
 INVARIANT PayTruthful
